@@ -157,7 +157,7 @@ def scope_objects(root):
 
 def run_observes(tier, seed):
     name = 'C19.observes'
-    col = h.Collector(
+    col = g.ClassCapped(
         name,
         rule='one case = one validated root (Document via Document.validate(), every Section and Property in place '
              'via Validation(obj), parentless keep_id clones) of one generated document (harness.gen_docs over all '
@@ -527,7 +527,7 @@ OPS = collections.OrderedDict([
 
 def run_custom_private(tier, seed):
     name = 'C19.custom_private'
-    col = h.Collector(
+    col = g.ClassCapped(
         name,
         rule='one case = one history: a sequence of operations from an alphabet of %d (default validations of a '
              'document / Section / Property, Document.validate, custom validations with a fresh marker rule for '
